@@ -367,7 +367,7 @@ for _k, _t in (('puback_props127', 'thorough'), ('puback_props128', 'opt'), ('pu
       bounds='v5.0 %s with reason code and one Reason String so that the property section is %s bytes (Property Length field one/two bytes); id, first and last string byte symbolic' % (_k.split('_')[0].upper(), _k[-3:]),
       symbolic='id, first byte, last byte', encodes=['v5_0 ack builder/size/to_continuous_buffer/parse', 'Properties::{parse,size,to_continuous_buffer}', 'MqttString'])
 for _k in ('puback', 'pubrec', 'pubrel', 'pubcomp'):
-    K('c02_v5_%s_parse_props128' % _k, {'C02': 'thorough', 'C04': 'thorough'}, est=600, timeout=3600, stubs=_st, mem='L',
+    K('c02_v5_%s_parse_props128' % _k, {'C02': 'thorough', 'C04': 'thorough'}, est=600, timeout=3600, stubs=['core::str::from_utf8 -> utf8_trusting (accepts; string bytes are concrete ASCII)'], mem='L',
       bounds='v5.0 %s body of 133 bytes: id (all u16 >= 1), reason code 0, Property Length 80 01, one Reason String of 125 bytes (last byte symbolic ASCII): parse, size(), re-serialisation' % _k.upper(),
       symbolic='id, last string byte', encodes=['v5_0 ack parse/size/to_continuous_buffer', 'Properties::{parse,size}', 'MqttString::decode'])
 S('st_send_pubrel_states_v311', {'C15': 'quick', 'C06': 'quick', 'C11': 'thorough'}, est=400,
@@ -397,6 +397,9 @@ for _k in ('suback_v311', 'unsuback_v311', 'suback_v5', 'unsuback_v5'):
 for _n, _d in (('v311_q1', 'v3.1.1 [QoS1 PUBLISH(i), PUBREL(k)]'), ('v311_q2', 'v3.1.1 [QoS2 PUBLISH(i), PUBREL(k)]'), ('v5_q1', 'v5.0 [QoS1 PUBLISH(i), PUBREL(k)]'), ('v5_q2', 'v5.0 [QoS2 PUBLISH(i), PUBREL(k)]')):
     S('st_restore_pair_' + _n, {}, stubs=_st, est=600, mem='L',
       bounds='restore_packets(%s) into a fresh client, ids symbolic; order, wait sets, in-use ids, re-registration refused' % _d, symbolic='i, k', encodes=['restore_packets', 'register_packet_id'])
+for _n, _d in (('v311_publish_q1', 'v3.1.1 QoS1 PUBLISH'), ('v311_publish_q2', 'v3.1.1 QoS2 PUBLISH'), ('v311_pubrel', 'v3.1.1 PUBREL'), ('v5_pubrel', 'v5.0 PUBREL'), ('v5_publish_q2', 'v5.0 QoS2 PUBLISH')):
+    S('st_restore_one_' + _n, {}, stubs=(_st if 'publish' in _n else []), est=500, mem='L',
+      bounds='restore_packets([%s(i)]) into a fresh client, i over all u16 >= 1; store content, in-use id, exactly the right wait set, re-registration refused' % _d, symbolic='i', encodes=['restore_packets', 'register_packet_id'])
 S('st_send_publish_v5_manual_alias_rebind1', {}, stubs=_st, est=900, mem='XL', timeout=3600,
   bounds='v5.0 QoS0 PUBLISH (topic in {a,b}) with Topic Alias 1..=3 sent by a connected client whose table (max 3) holds one earlier binding; sender table compared with a receiver model', symbolic='k1, a1, kx, ax',
   encodes=['process_send_v5_0_publish', 'TopicAliasSend::{insert_or_update,peek}'])
@@ -486,7 +489,7 @@ THOROUGH_EXTRA = {
     'C13': ['st_recv_connect_v5_server_tam', 'st_send_publish_v5_manual_alias_rebind1'],
     'C14': ['st_send_publish_v5_limit', 'st_send_stored_limit_v5'],
     'C15': ['st_send_pubrel_states_v311', 'st_send_pingreq_v311_client', 'st_send_disconnect_v5_server', 'st_timer_fired_v311_client', 'st_timer_fired_v5_client_pingresp', 'st_recv_connect_v5_server'],
-    'C16': ['st_restore_pair_v311_q1', 'st_restore_pair_v311_q2', 'st_restore_pair_v5_q1', 'st_restore_pair_v5_q2', 'st_restore_packets_v311', 'st_restore_packets_v5', 'st_restore_packets_duplicate_id', 'st_recv_connack_v311_resume'],
+    'C16': ['st_restore_one_v311_publish_q1', 'st_restore_one_v311_publish_q2', 'st_restore_one_v311_pubrel', 'st_restore_one_v5_pubrel', 'st_restore_one_v5_publish_q2', 'st_restore_pair_v311_q1', 'st_restore_pair_v311_q2', 'st_restore_pair_v5_q1', 'st_restore_pair_v5_q2', 'st_restore_packets_v311', 'st_restore_packets_v5', 'st_restore_packets_duplicate_id', 'st_recv_connack_v311_resume'],
     'C17': ['st_dispatch_client_v311', 'st_dispatch_server_v311', 'st_recv_connect_v311_server', 'st_recv_connect_v5_server', 'st_recv_connack_while_connected_v5'],
     'C18': [],
     'C19': ['st_timer_fired_v5_client_pingresp', 'st_timer_fired_server_pingreq_recv', 'st_recv_framing_error_v311', 'st_recv_puback_v311_persistent', 'st_send_pingreq_v311_client', 'st_recv_puback_v5_flow'],
@@ -512,8 +515,10 @@ for _p, _names in THOROUGH_EXTRA.items():
 EXPERIMENTAL = {
     'c02_v5_puback': '> 8 GB / > 20 min', 'c02_v5_pubrec': '> 8 GB', 'c02_v5_pubrel': '> 8 GB', 'c02_v5_pubcomp': '> 8 GB',
     'c02_v5_publish_q0': 'time-out 20 min', 'c02_v5_publish_q1': 'time-out 20 min, 8.6 GB',
-    'c02_v5_puback_props127': 'not measured (XL)', 'c02_v5_puback_props128': 'not measured (XL)', 'c02_v5_pubrec_props128': 'not measured (XL)',
+    'c02_v5_puback_props127': 'not measured (XL)', 'c02_v5_puback_props128': 'not measured (XL)', 'c02_v5_pubrec_props128': 'no verdict after 52 min in the SAT solver at 7.3 GB',
     'c02_v5_pubrel_props128': 'not measured (XL)', 'c02_v5_pubcomp_props128': 'not measured (XL)',
+    'c02_v5_puback_parse_props128': 'like pubrec', 'c02_v5_pubrec_parse_props128': '> 12 GB after 640 s even with UTF-8 validation stubbed out (symbolic cursor after the Property Length: every byte read is a 133-way case split)',
+    'c02_v5_pubrel_parse_props128': 'like pubrec', 'c02_v5_pubcomp_parse_props128': 'like pubrec',
     'c04_v5_puback_n3': 'time-out 20 min', 'c04_v5_pubrec_n3': 'time-out 20 min', 'c04_v5_pubrel_n3': 'time-out 20 min', 'c04_v5_pubcomp_n3': 'time-out 20 min',
     'c04_v5_publish_struct': 'time-out 20 min', 'c04_v5_connect_prefixes': 'time-out 20 min', 'c04_subscribe_family_prefixes': 'time-out 20 min, 12.5 GB',
     'c04_suback_family_prefixes': 'time-out 20 min', 'c02_v311_connect': '> 12 GB', 'c02_v311_subscribe_family': 'time-out 20 min / 12 GB',
